@@ -10,6 +10,7 @@
 //!        U<q> suspend+await (resumer kept)   u<q> suspend, the future is only awaited when R / r needs the resumer   R resume   C<q> suspend+await and hand the resumer to whoever executes R<q>   R<q> resume object q's suspension from THIS caller (waits until the resumer has been handed over)   r drop the resumer
 //!        E<e> fire event   O<g> open gate   X<q> drop this program's handle of object q
 //!        I<q>k<k> pipe_in stream k into object q   J<q>k<k>d<d> pipe stream k through q (depth d, 0 = default); output kept by the caller
+//!        k<q> a job scheduled on object q drops the caller's output stream
 //!        j<k>n<n> produce n GATED items (their processing waits until the consumer has received every earlier item)
 //!        g<k>n<n> produce n SLOW items (their processing yields co-operatively once, holding the object across the yield)   G<k>n<n> produce n items on stream k   H<k> end stream k   N<n> consume n outputs (0 = until the end)   K drop the output stream
 //!        Z<k> block until the pipe of stream k has released its input stream and closure
@@ -52,6 +53,8 @@ pub enum Op {
     Pipe(usize, usize, usize),
     Produce(usize, usize),
     ProduceSlow(usize, usize),
+    /// `k<q>`: a job scheduled on object q drops this caller's output stream (the stream is dropped from inside the object's own queue)
+    DropStreamInJob(usize),
     /// `j<k>n<n>`: items whose processing waits until the consumer has received every earlier item of the stream
     ProduceGated(usize, usize),
     CloseStream(usize),
@@ -128,6 +131,7 @@ pub fn fmt_op(o: &Op) -> String {
         Op::CloseStream(k) => format!("H{}", k),
         Op::Consume(n) => format!("N{}", n),
         Op::DropStream => "K".into(),
+        Op::DropStreamInJob(q) => format!("k{}", q),
         Op::AwaitRelease(k) => format!("Z{}", k),
         Op::Noise(c) => format!("Q{}", c),
         Op::Yield(n) => format!("L{}", n),
@@ -235,6 +239,7 @@ fn parse_op(cs: &[char], i: &mut usize) -> Result<Op, String> {
         'H' => Op::CloseStream(parse_num(cs, i)?),
         'N' => Op::Consume(parse_num(cs, i)?),
         'K' => Op::DropStream,
+        'k' => Op::DropStreamInJob(parse_num(cs, i)?),
         'Z' => Op::AwaitRelease(parse_num(cs, i)?),
         'Q' => Op::Noise(parse_num(cs, i)?),
         'L' => Op::Yield(parse_num(cs, i)?),
